@@ -357,7 +357,9 @@ def run_c02(ctx):
                     if tpos not in anc[j] and any(is_persistent(v) for v in stmts[j].get_written_variables()) \
                             or (tpos not in anc[j] and nonassign[j]):
                         cands.append((tpos, j, ["<after-terminator>"]))
-            ctx.count("probe:race_candidates", len(cands))
+            if cands:
+                # unordered conflicting pairs: none exist while the builder records every dependency
+                ctx.count("probe:race_candidates", len(cands))
             where0 = "phase %s store %d" % (ph.name, si)
             tried = set()
             tried.add(tuple(range(n)))
